@@ -3,8 +3,10 @@
 set -e
 D="$1"
 [ -d "$D" ] && { echo "exists: $D"; exit 0; }
+exec 9>/tmp/confirm-seed.lock; flock 9
 git -C /repo worktree add -q --detach "$D" HEAD
 rsync -a --exclude .git /repo/ "$D"/
+flock -u 9
 for f in Makefile src/Makefile tests/Makefile; do
   [ -f "$D/$f" ] && sed -i "s#/repo#$D#g" "$D/$f"
 done
